@@ -65,13 +65,13 @@ type Recovered struct {
 
 func payload(i, t uint64) []byte { return []byte(fmt.Sprintf("entry %d of term %d", i, t)) }
 
-func child(waldir, snapdir, stepsJSON string) {
+func child(waldir, snapdir, stepsJSON string, segsize int64) {
 	var steps []Step
 	if err := json.Unmarshal([]byte(stepsJSON), &steps); err != nil {
 		fmt.Println("CHILDERR bad steps: " + err.Error())
 		os.Exit(3)
 	}
-	wal.SegmentSizeBytes = 256 * 1024
+	wal.SegmentSizeBytes = segsize // 1: every Save that writes anything ends with a segment cut
 	log.SetOutput(os.Stderr)
 	res := raftexample.VerifRecover(1, waldir, snapdir)
 	out := Recovered{Snap: IT{res.SnapIndex, res.SnapTerm}, Hs: HS{res.HardState.Term, res.HardState.Commit}, Ents: []IT{}}
@@ -135,6 +135,7 @@ func child(waldir, snapdir, stepsJSON string) {
 }
 
 type finding struct {
+	Seg      string     `json:"segment_size"`
 	Kind     string     `json:"kind"` // mismatch | restart-refused | recovery-died | step-failed
 	ID       int        `json:"id"`
 	Epoch    int        `json:"epoch"`
@@ -169,10 +170,19 @@ func main() {
 	waldir := fs.String("wal", "", "")
 	snapdir := fs.String("snap", "", "")
 	steps := fs.String("steps", "[]", "")
+	segsize := fs.Int64("segsize", 256*1024, "child: wal.SegmentSizeBytes")
+	segsizes := fs.String("segsizes", "262144", "run: every scenario once per segment size (comma separated)")
+	minsnaps := fs.Int("minsnaps", 0, "run: only scenarios with at least this many WAL snapshot records")
 	fs.Parse(os.Args[2:])
 	if mode == "child" {
-		child(*waldir, *snapdir, *steps)
+		child(*waldir, *snapdir, *steps, *segsize)
 		return
+	}
+	var sizes []string
+	for _, x := range strings.Split(*segsizes, ",") {
+		if x != "" {
+			sizes = append(sizes, x)
+		}
 	}
 	self, _ := os.Executable()
 	f, err := os.Open(*scen)
@@ -205,81 +215,96 @@ func main() {
 			skippedKept++
 			continue
 		}
-		ran++
-		dir := filepath.Join(*work, fmt.Sprintf("s%d", s.ID))
-		wd, sd := filepath.Join(dir, "wal"), filepath.Join(dir, "snap")
-		os.MkdirAll(sd, 0750)
-		epoch := 0
-		var cur []Step
-		runEpoch := func(expect *Expect, final bool) bool {
-			b, _ := json.Marshal(cur)
-			cmd := exec.Command(self, "child", "-wal", wd, "-snap", sd, "-steps", string(b))
-			out, err := cmd.Output()
-			txt := string(out)
-			var got *Recovered
-			for _, l := range strings.Split(txt, "\n") {
-				if strings.HasPrefix(l, "RECOVERED ") {
-					got = &Recovered{}
-					json.Unmarshal([]byte(l[10:]), got)
-				}
-			}
-			if got == nil {
-				stderr := ""
-				if ee, ok := err.(*exec.ExitError); ok {
-					stderr = string(ee.Stderr)
-				}
-				if len(stderr) > 600 {
-					stderr = stderr[len(stderr)-600:]
-				}
-				enc.Encode(finding{"recovery-died", s.ID, epoch, s.Steps, expect, nil, "the node's recovery path did not return (process exit): " + stderr})
-				return false
-			}
-			if expect != nil {
-				recoveries++
-				if got.Snap != expect.Snap || got.Hs != expect.Hs || !sameIT(got.Ents, expect.Ents) {
-					enc.Encode(finding{"mismatch", s.ID, epoch, s.Steps, expect, got, "recovered state differs from the model's"})
-					return false
-				}
-			}
-			if got.Restart != "" {
-				enc.Encode(finding{"restart-refused", s.ID, epoch, s.Steps, expect, got, "raft refuses the recovered storage: " + got.Restart})
-				return false
-			}
-			if !strings.Contains(txt, "EPOCHDONE") {
-				enc.Encode(finding{"step-failed", s.ID, epoch, s.Steps, expect, got, "a durable step failed: " + txt})
-				return false
-			}
-			return true
-		}
-		ok := true
-		var pendingExpect *Expect // expectation for the recovery that starts the NEXT epoch
-		first := true
+		nsnap := 0
 		for _, st := range s.Steps {
-			switch st.Op {
-			case "crash":
-				// run the epoch that ends with this crash; its recovery expectation was set by the previous "recover" step
-				if !runEpoch(pendingExpect, false) {
-					ok = false
-				}
-				pendingExpect = nil
-				cur = nil
-				epoch++
-				first = false
-			case "recover":
-				pendingExpect = st.Expect
-			default:
-				cur = append(cur, st)
-			}
-			if !ok {
-				break
+			if st.Op == "walsnap" {
+				nsnap++
 			}
 		}
-		_ = first
-		if ok && pendingExpect != nil {
-			// the scenario ends with a recovery: one more epoch that only recovers (and runs whatever steps followed)
-			runEpoch(pendingExpect, true)
+		if nsnap < *minsnaps {
+			continue
 		}
-		os.RemoveAll(dir)
+		ran++
+		for _, size := range sizes {
+			runScenario(self, *work, s, size, enc, &recoveries)
+		}
 	}
 	fmt.Printf("SUMMARY {\"scenarios\":%d,\"replayed\":%d,\"recoveries_compared\":%d,\"ambiguous\":%d,\"not_realisable_by_process_kill\":%d}\n", n, ran, recoveries, ambiguous, skippedKept)
+}
+
+func runScenario(self, work string, s Scenario, size string, enc *json.Encoder, recoveries *int) {
+	dir := filepath.Join(work, fmt.Sprintf("s%d-%s", s.ID, size))
+	wd, sd := filepath.Join(dir, "wal"), filepath.Join(dir, "snap")
+	os.MkdirAll(sd, 0750)
+	epoch := 0
+	var cur []Step
+	runEpoch := func(expect *Expect, final bool) bool {
+		b, _ := json.Marshal(cur)
+		cmd := exec.Command(self, "child", "-wal", wd, "-snap", sd, "-steps", string(b), "-segsize", size)
+		out, err := cmd.Output()
+		txt := string(out)
+		var got *Recovered
+		for _, l := range strings.Split(txt, "\n") {
+			if strings.HasPrefix(l, "RECOVERED ") {
+				got = &Recovered{}
+				json.Unmarshal([]byte(l[10:]), got)
+			}
+		}
+		if got == nil {
+			stderr := ""
+			if ee, ok := err.(*exec.ExitError); ok {
+				stderr = string(ee.Stderr)
+			}
+			if len(stderr) > 600 {
+				stderr = stderr[len(stderr)-600:]
+			}
+			enc.Encode(finding{size, "recovery-died", s.ID, epoch, s.Steps, expect, nil, "the node's recovery path did not return (process exit): " + stderr})
+			return false
+		}
+		if expect != nil {
+			*recoveries++
+			if got.Snap != expect.Snap || got.Hs != expect.Hs || !sameIT(got.Ents, expect.Ents) {
+				enc.Encode(finding{size, "mismatch", s.ID, epoch, s.Steps, expect, got, "recovered state differs from the model's"})
+				return false
+			}
+		}
+		if got.Restart != "" {
+			enc.Encode(finding{size, "restart-refused", s.ID, epoch, s.Steps, expect, got, "raft refuses the recovered storage: " + got.Restart})
+			return false
+		}
+		if !strings.Contains(txt, "EPOCHDONE") {
+			enc.Encode(finding{size, "step-failed", s.ID, epoch, s.Steps, expect, got, "a durable step failed: " + txt})
+			return false
+		}
+		return true
+	}
+	ok := true
+	var pendingExpect *Expect // expectation for the recovery that starts the NEXT epoch
+	first := true
+	for _, st := range s.Steps {
+		switch st.Op {
+		case "crash":
+			// run the epoch that ends with this crash; its recovery expectation was set by the previous "recover" step
+			if !runEpoch(pendingExpect, false) {
+				ok = false
+			}
+			pendingExpect = nil
+			cur = nil
+			epoch++
+			first = false
+		case "recover":
+			pendingExpect = st.Expect
+		default:
+			cur = append(cur, st)
+		}
+		if !ok {
+			break
+		}
+	}
+	_ = first
+	if ok && pendingExpect != nil {
+		// the scenario ends with a recovery: one more epoch that only recovers (and runs whatever steps followed)
+		runEpoch(pendingExpect, true)
+	}
+	os.RemoveAll(dir)
 }
